@@ -1,8 +1,89 @@
-(* C01 — exported theorems only. *)
+(* C01 — exported theorems only: each is closed by [exact] and followed by Print Assumptions. *)
 From Coq Require Import List ZArith Bool.
-From Verif Require Import Lib.Vec2 C01.Model C01.Spec C01.Proofs.
+From Verif Require Import Lib.Vec2 C01.Model C01.Spec C01.Proofs_Base C01.Proofs_Unique C01.Proofs_Reset C01.Proofs_Main.
+Import ListNotations.
 Open Scope Z_scope.
 
-Theorem c01_init_exact : forall sm dm, state_code (init sm dm) = 0.
-Proof. exact init_code. Qed.
-Print Assumptions c01_init_exact.
+(* Main theorem: after ANY finite history that obeys the informer discipline, and after every
+   prefix of it, every figure GetQuotaSummaries reports equals its from-scratch recomputation from
+   the surviving objects (decision procedure of Spec.v returns 0). *)
+Theorem c01_accounting_exact : forall sm dm h,
+  wf_init sm dm = true -> wf_history (init sm dm) h = true ->
+  state_code (run (init sm dm) h) = 0 /\
+  forall s', In s' (trace (init sm dm) h) -> state_code s' = 0.
+Proof. exact accounting_exact. Qed.
+Print Assumptions c01_accounting_exact.
+
+(* the decision procedure decides the Prop *)
+Theorem c01_decision_sound : forall s, state_code s = 0 <-> state_ok s.
+Proof. exact state_code_ok. Qed.
+Print Assumptions c01_decision_sound.
+
+(* one operation preserves the invariant (tree shape, local equations, no clamp needed) *)
+Theorem c01_step_invariant : forall s o, Inv2 s -> wf_op s o = true -> Inv2 (step s o).
+Proof. exact step_inv. Qed.
+Print Assumptions c01_step_invariant.
+
+(* on a well-formed tree the local equations have one solution: the recomputation *)
+Theorem c01_local_eqs_unique : forall s, Inv s -> state_ok s.
+Proof. exact inv_state_ok. Qed.
+Print Assumptions c01_local_eqs_unique.
+
+Theorem c01_nonneg : forall sm dm h,
+  wf_init sm dm = true -> wf_history (init sm dm) h = true ->
+  forall q, In q (st_sh (run (init sm dm) h)) ->
+    nonneg_r (st_r (run (init sm dm) h) (q_name q)) = true /\ nonneg_u (st_u (run (init sm dm) h) (q_name q)) = true.
+Proof. exact figures_nonneg. Qed.
+Print Assumptions c01_nonneg.
+
+Theorem c01_no_double_count : forall sm dm h,
+  wf_init sm dm = true -> wf_history (init sm dm) h = true -> NoDup (all_pod_ids (run (init sm dm) h)).
+Proof. exact no_double_count. Qed.
+Print Assumptions c01_no_double_count.
+
+(* resetQuotaNoLock (the code's own full rebuild) reproduces the incrementally kept figures *)
+Theorem c01_rebuild_agrees : forall s, Inv2 s -> forall q, In q (st_sh s) ->
+  st_r (reset s) (q_name q) = st_r s (q_name q) /\ st_u (reset s) (q_name q) = st_u s (q_name q).
+Proof. exact rebuild_agrees. Qed.
+Print Assumptions c01_rebuild_agrees.
+
+(* two managers holding the same objects report the same figures, however they got there *)
+Theorem c01_figures_determined_by_objects : forall s1 s2,
+  state_ok s1 -> state_ok s2 -> st_sh s1 = st_sh s2 -> (forall k, st_p s1 k = st_p s2 k) ->
+  forall q, In q (st_sh s1) ->
+    st_r s1 (q_name q) = st_r s2 (q_name q) /\ st_u s1 (q_name q) = st_u s2 (q_name q).
+Proof. exact figures_determined. Qed.
+Print Assumptions c01_figures_determined_by_objects.
+
+(* ---------- non-vacuity: a history that obeys the discipline and uses every operation ---------- *)
+
+Definition ex_pod (id c m : Z) (np bound : bool) : pod := mkPod id (c, m) np bound false.
+Definition ex_history : list op :=
+  [ OpQuotaUpdate (mkQ 3 0 true true (30, 30) (5, 5));
+    OpQuotaUpdate (mkQ 4 3 false false (10, 10) (4, 4));
+    OpQuotaUpdate (mkQ 5 3 false true (10, 10) (0, 0));
+    OpQuotaUpdate (mkQ 6 0 true true (50, 50) (0, 0));
+    OpPodAdd 4 (ex_pod 1 7 20 false false);
+    OpPodAdd 5 (ex_pod 2 3 3 true true);
+    OpReserve 4 (ex_pod 1 7 20 false false);
+    OpPodUpdate 4 4 (ex_pod 1 9 2 true true) (ex_pod 1 7 20 false false);
+    OpUnreserve 4 (ex_pod 1 9 2 true true);
+    OpPodAdd 2 (ex_pod 3 1 1 false true);
+    OpMigrate (ex_pod 3 1 1 false true) 2 5;
+    OpQuotaUpdate (mkQ 4 6 false false (8, 8) (4, 4));      (* re-parent *)
+    OpQuotaUpdate (mkQ 5 3 false false (10, 10) (6, 6));     (* lend flag: full rebuild *)
+    OpQuotaUpdate (mkQ 3 6 true true (30, 30) (5, 5));       (* re-parent a subtree *)
+    OpPodUpdate 5 4 (ex_pod 1 9 2 true true) (ex_pod 1 9 2 true true);   (* pod changes its quota *)
+    OpNode; OpReset;
+    OpPodDelete 5 (ex_pod 2 3 3 true true);
+    OpQuotaDelete 4 ].
+
+Example c01_wf_nonvacuous :
+  wf_init (1000, 1000) (1000, 1000) = true /\ wf_history (init (1000, 1000) (1000, 1000)) ex_history = true.
+Proof. vm_compute. split; reflexivity. Qed.
+
+(* ... and along which the figures are not trivially zero *)
+Example c01_example_figures :
+  let s := run (init (1000, 1000) (1000, 1000)) (firstn 15 ex_history) in
+  (r_req (st_r s 6), r_creq (st_r s 3), u_used (st_u s 6)) = ((14, 10), (10, 6), (13, 6)).
+Proof. vm_compute. reflexivity. Qed.
